@@ -35,6 +35,9 @@ ASAN_FLAGS = ["-O1", "-fsanitize=address,undefined", "-fno-sanitize-recover=all"
 
 VARIANTS = {
     "asan": {"cxx": "g++", "flags": ASAN_FLAGS},
+    # release-like mirror: what a CMAKE_BUILD_TYPE=Release user compiles (optimised, NDEBUG => assert() bodies vanish,
+    # strict-aliasing and other UB-based optimisations active), still with the ASan/UBSan monitors and harness hooks
+    "asanrel": {"cxx": "g++", "flags": ["-O2", "-DNDEBUG"] + ASAN_FLAGS[1:]},
     "tsan": {"cxx": "g++", "flags": ["-O1", "-fsanitize=thread"]},
     "plain": {"cxx": "g++", "flags": ["-O1"]},
     "ubsan2": {"cxx": "g++", "flags": ["-O2", "-fsanitize=undefined", "-fno-sanitize-recover=all",
